@@ -38,7 +38,7 @@ type Env struct {
 	Snap    vnode.Snapshot // databases of a node holding exactly the trunk
 	nonce   int64
 	CfgEdit func(string) string
-	Len     int // trunk length (TrunkLen unless built with NewEnvLen)
+	Len     int                     // trunk length (TrunkLen unless built with NewEnvLen)
 	extra   map[string]*types.Block // C26: one more block on top of a tip, built once per tip
 }
 
